@@ -11,6 +11,7 @@
 (*  swzw  t set nm a=[dst, val]       r = dst after  dst.NAME = val        *)
 (*  swzf  t set nm a=[dst, [scalar]]  r = dst after  dst.NAME = scalar     *)
 (*  swzs  t set nm a=[dst, other]     r = dst after  dst.NAME = other.NAME *)
+(*  swzcrash t q set nm addr16 sig a=[src]   the read raised a signal      *)
 (*  cvec  n t parts at a=[args...]    r = vec<n,t>(args...)                *)
 (*  cswz  n t set parts a             r = vec<n,t>(swizzle / scalar args)  *)
 (*  cmat  kind C R C2 R2 t at a       r = mat<C,R,t>(...) column-major     *)
@@ -46,6 +47,15 @@ SwzSameV(ev) ==
        ELSE IF SameSeq(ev.r, SwzWrite(idx, dst, Swz(idx, oth))) THEN VOk
        ELSE IF KD_SwizzleSameTypeAssign(ev.t, dst, oth, ev.r) THEN VKnown("KD-C17-swizzle-same-accessor-assign")
        ELSE VBad
+
+(* Known deviation KD-C17-aligned-vec2-four-letter-overread: the SIMD operator() of a 4-letter accessor loads a whole __m128 from
+   the source; an aligned vec2 is an 8-byte object with 8-byte alignment, so at an address = 8 (mod 16) the aligned load faults
+   (SIGSEGV = 11) when the compiler emits movaps (g++ -O0).  Pinned: operator form, aligned qualifier, float / int / uint,
+   vec2 source, 4 letters, address 8 mod 16, signal 11.  A fault anywhere else is bad. *)
+SwzCrashV(ev) ==
+    IF /\ ev.impl = "op" /\ ev.q \in {"aligned_highp", "aligned_mediump", "aligned_lowp"} /\ ev.t \in {"f32", "i32", "u32"}
+       /\ Len(ev.a[1]) = 2 /\ Len(ev.nm) = 4 /\ ev.addr16 = 8 /\ ev.sig = 11
+    THEN VKnown("KD-C17-aligned-vec2-four-letter-overread") ELSE VBad
 
 (* ---- vector constructors ---- *)
 PartsOK(parts) == Len(parts) \in 1..4 /\ \A i \in 1..Len(parts) : parts[i] \in PartKinds
@@ -96,7 +106,7 @@ AlignedQ == {"aligned_highp", "aligned_mediump", "aligned_lowp"}
 AllIn(seq, S) == \A k \in 1..Len(seq) : seq[k] \in S
 NoneIn(seq, S) == \A k \in 1..Len(seq) : seq[k] \notin S
 HasLetter(nm, c) == \E k \in 1..Len(nm) : nm[k] = c
-FreeHoles == {<<4, <<"x", "y", "z">> >>, <<3, <<"x", "y", "z", "z">> >>, <<4, <<"x", "y", "z", "z">> >>}
+FreeHoles == {<<4, <<"x", "y", "z", "z">> >>}          \* xyz(vec4) and xyzz(vec3), absent from gtx/vec_swizzle.hpp, are defined in func_common.inl
 AbsentSwz(ev) ==
     IF ev.set \notin SetNames \/ Len(ev.names) = 0 THEN VBad
     \* by design: vec1 declares no swizzle accessors; gtx/vec_swizzle has xyzw names only; GLM_FORCE_XYZW_ONLY removes rgba / stpq
@@ -124,6 +134,7 @@ Verdict(ev) ==
       [] ev.op = "swzw" -> SwzWriteV(ev)
       [] ev.op = "swzf" -> SwzFillV(ev)
       [] ev.op = "swzs" -> SwzSameV(ev)
+      [] ev.op = "swzcrash" -> SwzCrashV(ev)
       [] ev.op = "cvec" -> CVecV(ev)
       [] ev.op = "cswz" -> CSwzV(ev)
       [] ev.op = "cmat" -> CMatV(ev)
